@@ -1,6 +1,7 @@
 // C15: run one named parser at a cursor; on success re-run it on the reported span alone.
 use parsley_rust::pcore::parsebuffer::{LocatedVal, ParseBuffer, ParseBufferT, ParseResult, ParsleyParser};
 use parsley_rust::pcore::prim_binary::*;
+use parsley_rust::pcore::transforms::{BufferTransformT, RestrictView};
 use parsley_rust::pdf_lib::pdf_obj::{parse_pdf_obj, PDFObjContext};
 use parsley_rust::pdf_lib::pdf_prim::*;
 use verif_harness::objfmt::obj_sexp;
@@ -30,7 +31,18 @@ fn conv<T: PartialEq>(r: ParseResult<LocatedVal<T>>, pb: &ParseBuffer, f: &dyn F
 fn endian(p: &str) -> Endian { if p.ends_with("le") { Endian::Little } else { Endian::Big } }
 
 fn run_parser(p: &str, buf: &[u8], pos: usize) -> Option<Out> {
-    let mut pb = ParseBuffer::new(buf.to_vec());
+    // parser names prefixed with '@' run on a RESTRICTED VIEW whose window is exactly `buf` inside a
+    // larger allocation (by C17 a view behaves like a copy of its window: same expected output)
+    let (p, mut pb) = if let Some(rest) = p.strip_prefix('@') {
+        let mut big = vec![0x28u8, 0x25, 0x3c, 0x31];
+        big.extend_from_slice(buf);
+        big.extend_from_slice(&[0x39, 0x29, 0x3e]);
+        let parent = ParseBuffer::new(big);
+        let view = RestrictView::new(4, buf.len()).transform(&parent).ok()?;
+        (rest, view)
+    } else {
+        (p, ParseBuffer::new(buf.to_vec()))
+    };
     if pb.set_cursor(pos).is_err() {
         return None
     }
@@ -91,7 +103,7 @@ fn show(p: &str, o: &Out) -> String {
     match (&o.ok, o.err) {
         (Some((s, e, v)), _) => format!("ok {} {} {} {}", s, e, o.cursor, v),
         (None, Some(k)) => {
-            if p.starts_with("obj:") {
+            if p.trim_start_matches('@').starts_with("obj:") {
                 format!("err {}", k)
             } else {
                 format!("err {} {}", k, o.cursor)
